@@ -78,8 +78,9 @@ SPEC_FLIPS = [
     ('the launch loop does not create a task per node (awaits inline)',
      'IN  DagLoop(SetTop(S1, t, [f EXCEPT !.i = @ + 1, !.locals = Append(@, LastTask(S1))]), t)',
      'IN  SetTop(S1, t, [f EXCEPT !.i = @ + 1, !.locals = Append(@, LastTask(S1))])'),
-    ('a duplicate request stores what it read',
-     'S2 == IF ~f.dup THEN [S1 EXCEPT !.res[n] = r, !.hid = @ \\ {n}] ELSE S1', 'S2 == [S1 EXCEPT !.res[n] = r, !.hid = @ \\ {n}]'),
+    ('the result is stored before the artifact is saved',
+     'CollabThen([S1 EXCEPT !.saves = Append(@, n)], t, "save", "saved")',
+     'CollabThen([S1 EXCEPT !.saves = Append(@, n), !.res[n] = r, !.hid = @ \\ {n}], t, "save", "saved")', {'save': 'yield'}),
 ]
 
 
@@ -117,7 +118,8 @@ def run():
     base = tlc.SPEC_DIR
     text = open(os.path.join(base, 'Engine.tla')).read()
     witnesses = ['rhombus', 'rec_simple#it1', 'rec_dest_two_scopes#it1', 'switch_simple#l1']
-    for what, old, new in SPEC_FLIPS:
+    for what, old, new, *rest in SPEC_FLIPS:
+        collab = rest[0] if rest else None
         old = old.replace('\\\\', '\\')
         new = new.replace('\\\\', '\\')
         if old not in text:
@@ -134,7 +136,7 @@ def run():
             tlc.SPEC_DIR = tmp
             diverged = None
             for w in witnesses:
-                r = replay.replay_graph(progs[w], max_paths=400)
+                r = replay.replay_graph(progs[w], max_paths=400, collab=collab)
                 if r['divergence']:
                     diverged = (w, r['divergence'].get('step'))
                     break
@@ -145,5 +147,29 @@ def run():
         finally:
             tlc.SPEC_DIR = base
             shutil.rmtree(tmp, ignore_errors=True)
+    # Pools.tla / PoolsTrace.tla: recorded histories of the real registries are accepted; the same histories with one
+    # reply corrupted are rejected with the expected class of verdict
+    import copy as _copy
+    from harness import pools
+    hs = [h for h in pools.run_histories(pools.directed()) if 'error' not in h]
+    byid = {h['id']: h for h in hs}
+    cases = [('orig', None, None, None, set())]
+    cases += [('run_without_pool', 'dir_no_manager', 'run', ['ran'], {'C17.pool'}),
+              ('refused_with_pools', 'dir_all_ready', 'run', ['failfast'], {'C17.mode'}),
+              ('partial_run', 'dir_nothing', 'run', ['partial'], {'C17.pool'}),
+              ('registry_answers_differently', 'dir_first_wins', 'getT', ['obj', 't2'], {'drift.registry'})]
+    for name, hid, opname, newreply, expect in cases:
+        if hid is None:
+            batch = hs
+        else:
+            h = _copy.deepcopy(byid[hid])
+            idx = [i for i, o in enumerate(h['ops']) if o['op'] == opname][-1]
+            h['ops'][idx]['reply'] = newreply
+            batch = [h]
+        verd, _ = tlc.run_batch('PoolsTrace', {'histories': batch}, len(batch))
+        got = {c for v in verd.values() for c, _ in v}
+        good = got == expect
+        ok = ok and good
+        print('%s Pools %-40s %s %s' % ('PASS' if good else 'FAIL', name, 'accepted' if not got else 'rejected', sorted(got)))
     print('selftest', 'OK' if ok else 'FAILED')
     return 0 if ok else 1
